@@ -106,6 +106,7 @@ func suiteRS(e *Env) {
 	rsIndices(e)
 	items := rsZk(e)
 	rsMsgServer(e, items)
+	rsKeyRotation(e, items)
 }
 
 // ---------------------------------------------------------------------------------------------- erasure coding
@@ -1039,4 +1040,61 @@ func rsReplay(e *Env) {
 			e.Obs("not-replayable")
 		}
 	}
+}
+
+
+// Governance replaces the zkp key pair (MsgUpdateParams with a fresh groth16.Setup of the same circuit) on a chain that has
+// already verified proofs under the old pair: from then on a proof made with the NEW proving key for shard hash h must be
+// accepted against MiMC(h), and proofs made with the REPLACED key must be refused — the proof binds to the parameters in force.
+func rsKeyRotation(e *Env, items []zkItem) {
+	if len(items) < 2 {
+		return
+	}
+	z := zkSetup(e)
+	if z == nil {
+		return
+	}
+	c, err := sim.New(sim.DefaultConfig())
+	if err != nil {
+		e.Obs("setup-error %v", err)
+		return
+	}
+	a, b := items[0], items[1]
+	if string(a.m) == string(b.m) {
+		return
+	}
+	// the process has decoded the old pair at least once
+	pre := vpSubmit(c, "ipfs://rot/0", [][]byte{a.m, b.m}, []int64{0}, [][]byte{a.proof})
+	e.Oracle("zk_verifies_own", pre == "ok", "class=before_key_rotation Msg/SubmitValidityProof with the genesis key pair: %s", pre)
+	pk2, vk2, err := groth16.Setup(z.ccs)
+	if err != nil {
+		e.Note("key rotation: setup: %v", err)
+		return
+	}
+	pkBz, err1 := zkp.MarshalProvingKey(pk2)
+	vkBz, err2 := zkp.MarshalVerifyingKey(vk2)
+	if err1 != nil || err2 != nil {
+		e.Note("key rotation: marshal: %v %v", err1, err2)
+		return
+	}
+	par, _ := c.App.DaKeeper.Params.Get(c.Ctx())
+	par.ZkpProvingKey, par.ZkpVerifyingKey = pkBz, vkBz
+	auth, _ := c.App.AuthKeeper.AddressCodec().BytesToString(c.App.DaKeeper.GetAuthority())
+	if _, err, p := c.Exec(&datypes.MsgUpdateParams{Authority: auth, Params: par}); err != nil || p != nil {
+		e.Note("key rotation: MsgUpdateParams: %v %v", err, p)
+		return
+	}
+	z2 := &zkEnv{ccs: z.ccs, pk: pk2, vk: vk2}
+	newA, cls := z2.prove(a.h, a.m)
+	if cls != "ok" {
+		e.Note("key rotation: prove: %s", cls)
+		return
+	}
+	got := vpSubmit(c, "ipfs://rot/1", [][]byte{a.m, b.m}, []int64{0}, [][]byte{newA})
+	e.Oracle("zk_verifies_own", got == "ok", "class=after_key_rotation a proof made with the proving key now in the parameters is refused: %s", got)
+	got = vpSubmit(c, "ipfs://rot/2", [][]byte{a.m, b.m}, []int64{1}, [][]byte{newA})
+	e.Oracle("zk_binds", got != "ok", "class=after_key_rotation new-key proof for shard 0 accepted for shard 1")
+	got = vpSubmit(c, "ipfs://rot/3", [][]byte{a.m, b.m}, []int64{0}, [][]byte{a.proof})
+	e.Oracle("zk_binds", got != "ok", "class=replaced_key a proof made with the REPLACED proving key is still accepted")
+	e.Stat("zk.key_rotation")
 }
